@@ -152,3 +152,29 @@ def expansion_text_check(e1_exe):
             if e != l:
                 problems.append({"what": "BINDING: join_impl called as a library (E1) produces a different expansion than the real %s! proc-macro" % long, "long": long, "body": body, "e1": e[:600], "real": l[:600]})
     return npairs, nbind, problems, items
+
+
+def send_not_sync_programs():
+    """values that are Send + 'static but NOT Sync (Cell, mpsc::Receiver): spawning needs Send only"""
+    progs = []
+    body_cell = "{M}! {{ {W}(std::cell::Cell::new(1)) {OP} |c: std::cell::Cell<i32>| {{ c.set(c.get() + 1); {W2}(c) }}, {W}(std::cell::Cell::new(10)) {OP} |c: std::cell::Cell<i32>| {{ c.set(c.get() * 2); {W2}(c) }} }}"
+    for a, b in (("join", "join_spawn"), ("join", "spawn"), ("join_async", "join_async_spawn"), ("join_async", "async_spawn"), ("try_join", "try_join_spawn"), ("try_join_async", "try_join_async_spawn")):
+        def render(m):
+            is_try, is_async = m.startswith("try"), "async" in m
+            w = "Ok::<std::cell::Cell<i32>, i32>" if is_try else ""
+            w1 = ("ready(%s(" % w if w else "ready((") if is_async else ("%s(" % w if w else "(")
+            init = lambda v: ("ready(%s(std::cell::Cell::new(%d)))" % (w, v)) if is_async else ("%s(std::cell::Cell::new(%d))" % (w, v))
+            if is_try and is_async:
+                op, res = "~=>", "ready(Ok::<std::cell::Cell<i32>, i32>(c))"
+            elif is_try or is_async:
+                op, res = "~|>", "c"
+            else:
+                op, res = "~->", "c"
+            d = "%s! { %s %s |c: std::cell::Cell<i32>| { c.set(c.get() + 1); %s }, %s %s |c: std::cell::Cell<i32>| { c.set(c.get() * 2); %s } }" % (m, init(1), op, res, init(10), op, res)
+            if is_async:
+                return "let x = %s(%s);\nformat!(\"{:?}\", x)" % ("trt().block_on" if "spawn" in m else "futures::executor::block_on", d), d
+            return "let x = %s;\nformat!(\"{:?}\", x)" % d, d
+        ra, da = render(a)
+        rb, db = render(b)
+        progs.append(Prog("sendnotsync/%s=%s" % (a, b), ra, rb, [[0]], "Value", meta={"macro": b, "dsl": db, "ref": da}))
+    return progs
